@@ -77,5 +77,5 @@ def rename_locals(tree):
         return False, out.strip()[-300:]
     # ... and the sources are reshaped (operands of comparisons swapped, if/else flipped, messages
     # reworded, keyed literals reordered, x++ -> x += 1; checker/cmd/renamer/shape.go)
-    rc2, out2 = sh([os.path.join(VERIF, "bin", "renamer"), "-repo", tree, "-shape", "eq,else,msg,inc,ord,lit,and"] + GO_MODS + SHAPE_EXTRA_MODS, env=GOENV)
+    rc2, out2 = sh([os.path.join(VERIF, "bin", "renamer"), "-repo", tree, "-shape", "eq,else,msg,inc,ord,lit,and,log"] + GO_MODS + SHAPE_EXTRA_MODS, env=GOENV)
     return rc2 == 0, (out.strip()[-200:] + "; " + out2.strip()[-200:])
